@@ -122,7 +122,7 @@ func init() {
 		Assumptions: []string{
 			"operators are called directly through the verif hook (same function values the parser installs) and, in batch eval, through Compile/Eval with optimizations disabled",
 			"error values are compared by class and reported operator name, not by message text"},
-		Behav: []int{5, 15, 2}, Fidelity: []int{1, 3, 4, 8, 9, 10}, Ignore: []int{6, 7, 14, 16, 17, 50}, CodeText: evalCodeText,
+		Behav: []int{5, 15, 17, 2}, Fidelity: []int{1, 3, 4, 8, 9, 10}, Ignore: []int{6, 7, 14, 16, 50}, CodeText: evalCodeText,
 		Gen:   genC18,
 	})
 	register(&PropDef{
@@ -209,6 +209,9 @@ func genC18(c *RunCtx) []*Batch {
 				b.Cases = append(b.Cases, opCase(name, []interface{}{x, y}, "eq-kinds"))
 				if r.Intn(4) == 0 {
 					b.Cases = append(b.Cases, opCase(name, []interface{}{x, y, kinds[r.Intn(len(kinds))]}, "eq-kinds"))
+				}
+				if r.Intn(3) == 0 { // an uncomparable operand after a mismatch (or a match): a type error all the same
+					b.Cases = append(b.Cases, opCase(name, []interface{}{x, y, []interface{}{[]int64{1, 2}, []string{"a"}, map[string]struct{}{"a": {}}}[r.Intn(3)]}, "eq-kinds"))
 				}
 			}
 		}
@@ -311,6 +314,44 @@ func genC17(c *RunCtx) []*Batch {
 	}
 	for _, ps := range inSpecials {
 		b.Cases = append(b.Cases, opCase("in", ps, "special"))
+	}
+	// list constants of the configuration that are views of ONE array (tiers cut out of a master list, with repeated
+	// elements): compiling an expression that names one of them must leave the others - the caller's slices - as they are
+	for rep := 0; rep < c.N(6, 200); rep++ {
+		master := make([]int64, 160)
+		for i := range master {
+			master[i] = int64(i / 2) // every element twice
+		}
+		names := []string{"n0", "n1", "n1", "n2", "n3", "n3"}
+		conf := eval.NewConfig()
+		conf.ConstantMap["TIER_A"], conf.ConstantMap["TIER_B"] = master[:120], master[100:]
+		conf.ConstantMap["FIRST"], conf.ConstantMap["LAST"] = names[:4], names[2:]
+		wantB := append([]int64{}, master[100:]...)
+		wantL := append([]string{}, names[2:]...)
+		for _, src := range []string{"(in 7 TIER_A)", "(overlap TIER_A (1 2 3))", "(in \"n1\" FIRST)", "(overlap FIRST LAST)"} {
+			if _, err, pan := compileSafe(conf, src); err != nil || pan != nil {
+				c.Notes = append(c.Notes, fmt.Sprintf("shared-array constants: compile of %s: %v %v", src, err, pan))
+			}
+		}
+		c.ExploreEvals += 4
+		gotB, _ := conf.ConstantMap["TIER_B"].([]int64)
+		gotL, _ := conf.ConstantMap["LAST"].([]string)
+		if fmt.Sprint(gotB) != fmt.Sprint(wantB) || fmt.Sprint(gotL) != fmt.Sprint(wantL) {
+			c.Direct = append(c.Direct, DirectViolation{What: "compiling an expression that names one list constant changed ANOTHER list constant of the configuration (both are views of one array of the caller)",
+				Sig: "c17-shared-array", Sample: map[string]interface{}{"TIER_B_before": fmt.Sprint(wantB[:12]), "TIER_B_after": fmt.Sprint(gotB[:minInt(12, len(gotB))]), "LAST_before": fmt.Sprint(wantL), "LAST_after": fmt.Sprint(gotL)}})
+			break
+		}
+		// and membership in the untouched view is what its elements say
+		for _, v := range []int64{wantB[0], wantB[len(wantB)-1], 79} {
+			e, err, pan := compileSafe(conf, fmt.Sprintf("(in %d TIER_B)", v))
+			if err != nil || pan != nil {
+				continue
+			}
+			got, er := e.Eval(eval.NewCtxFromVars(conf, map[string]interface{}{}))
+			if er != nil || got != true {
+				c.Direct = append(c.Direct, DirectViolation{What: fmt.Sprintf("(in %d TIER_B) = %v / %v, but %d is an element of TIER_B", v, got, er, v), Sig: "c17-shared-array-in", Sample: fmt.Sprint(wantB[:12])})
+			}
+		}
 	}
 	return []*Batch{b, evalBatchLists(c)}
 }
